@@ -11,7 +11,7 @@ import (
 func init() {
 	register(stream{
 		name: "policy",
-		rule: "every policy of one statement of depth ≤ 2 built from 5 comparison operators × 5 selectors × 4 literals, like × 2 selectors × 3 patterns, not, binary and/or (both operand orders), all/any over a list selector — each against 16 data trees; every ordered pair of 28 boundary numbers (floats incl. ±MaxFloat64, denormals, NaN, ±Inf, ±0; ints up to the int64 limits) under each of the five comparison operators (maps with present/missing/optional/null fields, ints, floats incl. NaN/±Inf/−0, strings, lists of maps, empty collections, boundary integers ±(2^53−1)), together with the negated statement (so that the four-valued result is observable through Match/PartialMatch); plus grammar-random policies of depth ≤ 4 with 1–3 statements, each also in a randomly permuted form, against random trees. Added later: every policy object is also evaluated after it was used on 17 other data values, as an equal object decoded from its IPLD form that sees the other data first, and as decoded from IPLD (identical matching); overlapping slices of one policy (p[:n-1], p[1:]) answer the same before and after p is matched and p prints the same; selectors with a failing required segment before an optional last one, optional iterators on non-lists, explicit nulls under optional selectors; integer neighbours beyond 2^53. like patterns without a wildcard but with escapes, on strings that hold backslashes; all/any over lists whose elements have the same content under different kinds (string/bytes, 1/1.0, true/1) or repeat, in every order, with element statements that tell the kinds apart; one text cut into (like pattern, string) at two places, matched one right after the other in both orders. Every like pattern over {a, *, \\} of up to 3 (thorough 4) letters that the constructor accepts, as a policy statement on every string over these letters of up to 3 (thorough 4). Non-trivial = the statement has a connective/quantifier/negation or a selector that does not resolve. Distinct = distinct protocol lines.",
+		rule: "every policy of one statement of depth ≤ 2 built from 5 comparison operators × 5 selectors × 4 literals, like × 2 selectors × 3 patterns, not, binary and/or (both operand orders), all/any over a list selector — each against 16 data trees; every ordered pair of 28 boundary numbers (floats incl. ±MaxFloat64, denormals, NaN, ±Inf, ±0; ints up to the int64 limits) under each of the five comparison operators (maps with present/missing/optional/null fields, ints, floats incl. NaN/±Inf/−0, strings, lists of maps, empty collections, boundary integers ±(2^53−1)), together with the negated statement (so that the four-valued result is observable through Match/PartialMatch); plus grammar-random policies of depth ≤ 4 with 1–3 statements, each also in a randomly permuted form, against random trees. Added later: every policy object is also evaluated after it was used on 17 other data values, as an equal object decoded from its IPLD form that sees the other data first, and as decoded from IPLD (identical matching); overlapping slices of one policy (p[:n-1], p[1:]) answer the same before and after p is matched and p prints the same; selectors with a failing required segment before an optional last one, optional iterators on non-lists, explicit nulls under optional selectors; integer neighbours beyond 2^53. like patterns without a wildcard but with escapes, on strings that hold backslashes; all/any over lists whose elements have the same content under different kinds (string/bytes, 1/1.0, true/1) or repeat, in every order, with element statements that tell the kinds apart; one text cut into (like pattern, string) at two places, matched one right after the other in both orders. Every like pattern over {a, *, \\} of up to 3 (thorough 4) letters that the constructor accepts, as a policy statement on every string over these letters of up to 3 (thorough 4). Policies of two top-level statements over values without a faithful printed form (±Inf, NaN, 2.0 / 2): every statement is evaluated. Non-trivial = the statement has a connective/quantifier/negation or a selector that does not resolve. Distinct = distinct protocol lines.",
 		run:  runPolicyStream,
 		eval: evalPolicy,
 	})
@@ -437,6 +437,26 @@ func runPolicyStream(c *ctx) error {
 			for _, str := range strs {
 				c.emitG("pol.match P(k("+hxs(".")+","+hxs(p)+")) L s"+hxsRaw(str), "policy.like-exhaustive", func(string) bool { return true },
 					func(g string) []string { return []string{"like-exhaustive:" + strings.ReplaceAll(g, " ", "")} })
+			}
+		}
+	}
+	// policies of TWO top-level statements over values that have no faithful printed form (±Inf and NaN print alike, 2.0 prints
+	// like 2, bytes print like the map DAG-JSON writes for them): every statement of a policy is evaluated, also when it
+	// "looks like" one that was evaluated before
+	{
+		vals := []string{"d7ff0000000000000", "dfff0000000000000", "d7ff8000000000000", "d4000000000000000", "i2", "b6162", "m(2f:m(6279746573:s59574a)))"}
+		for _, x := range vals[:5] {
+			for _, y := range vals[:5] {
+				if x == y {
+					continue
+				}
+				for _, d := range []string{"m(61:" + x + ",62:" + x + ")", "m(61:" + x + ",62:" + y + ")", "m(61:" + y + ",62:" + x + ")"} {
+					for _, pol := range []string{"P(ceq(" + hxs(".a") + "," + x + ");ceq(" + hxs(".b") + "," + y + "))", "P(ceq(" + hxs(".a") + "," + x + ");!(ceq(" + hxs(".b") + "," + y + ")))",
+						"P(ceq(" + hxs(".a") + "," + x + ");ceq(" + hxs(".a") + "," + y + "))"} {
+						c.emitG("pol.match "+pol+" L "+d, "policy.lookalike-statements", func(string) bool { return true },
+							func(g string) []string { return []string{"lookalike:" + strings.ReplaceAll(g, " ", "")} })
+					}
+				}
 			}
 		}
 	}
